@@ -178,6 +178,13 @@ def cases(tier, seed):
         yield {"k": "star", "pkg": pkg, "hide": ["jinja2"]}
     for pkg in SUBPACKAGES + ["*"]:
         yield {"k": "audit", "pkg": pkg}
+    # the workloads of the other nineteen properties, replayed under the RAISE monitor: a
+    # NameError / UnboundLocalError / AttributeError on a lena module raised anywhere in them
+    # is a reference to an undefined name on an executed path
+    shards = 16 if tier == "quick" else 4
+    for i in range(1, 20):
+        yield {"k": "workload", "pid": "C%02d" % i, "shard": (seed + i) % shards,
+               "shards": shards}
     names = public_names()
     for pkg in SUBPACKAGES:
         ns = names.get(pkg)
@@ -230,8 +237,37 @@ def comparable(rec):
     return [rec[0], "exc", rec[2], rec[4]]
 
 
+def case_workload(r, obs):
+    """One shard of another property's quick workload in a worker process; only what its RAISE
+    monitor recorded about undefined names is read (its own verdicts are that check's)."""
+    scratch = tempfile.mkdtemp(prefix="rv_c20_w_")
+    try:
+        out = os.path.join(scratch, "out.json")
+        env = dict(os.environ)
+        env.update({"PYTHONPATH": os.pathsep.join([REPO, HERE]), "LENA_REPO": REPO,
+                    "PYTHONHASHSEED": "0", "PYTHONDONTWRITEBYTECODE": "1"})
+        p = subprocess.run([sys.executable, "-B", "-m", "rv.worker", r["pid"], "quick", "0",
+                            str(r["shard"]), str(r["shards"]), out], env=env, cwd=HERE,
+                           capture_output=True, text=True, timeout=CHILD_TIMEOUT_S * 4)
+        if not os.path.exists(out):
+            raise RuntimeError("worker of %s produced no result (rc=%s): %s"
+                               % (r["pid"], p.returncode, (p.stdout + p.stderr)[-1500:]))
+        with open(out) as f:
+            res = json.load(f)
+    finally:
+        shutil.rmtree(scratch, ignore_errors=True)
+    obs.nontrivial = res["n_cases"] > 0
+    obs.count("other_property_cases_replayed", res["n_cases"])
+    obs.count("other_property_raise_events", sum(res["raises"].values()))
+    obs.count("oracle_evaluations", sum(res["raises"].values()))
+    for mech, msg in sorted(res.get("undefined_names_raised", {}).items()):
+        obs.fail(mech, "RAISE monitor while the workload of %s ran: %s" % (r["pid"], msg))
+
+
 def run_case(r, obs):
     k = r["k"]
+    if k == "workload":
+        return case_workload(r, obs)
     if k == "star":
         return case_star(r, obs)
     if k == "audit":
